@@ -1,8 +1,9 @@
 (* C14 - invariants of Model/Upgrade.v over all histories *)
 From Coq Require Import List ZArith Bool Lia.
-From GV Require Import Model.Upgrade.
+From GV Require Import Gen.GenUpgrade Model.Upgrade.
 Import ListNotations.
 Local Open Scope Z_scope.
+Local Opaque reload_names_dot2.
 
 (* ---- who is whose parent ------------------------------------------------------------------------------------------ *)
 Definition linked (m o : master) : Prop :=
@@ -168,14 +169,15 @@ Proof.
     destruct (negb (m_alive (get s x))) eqn:Al; auto.
     assert (Wm : forall n o, WF (put s x (set_m_pf (set_m_workers (get s x) (cworkers c)) n o))).
     { intros n o. apply wf_put_same; auto. unfold same_links. simpl. auto. }
+    cbv zeta. remember (if reload_names_dot2 && negb (m_mpid (get s x) =? 0) then PDot2 else PMain) as tgt.
     destruct (pidconf c).
     + destruct (pf_unlink_masters s (get s x)) as [U1 [U2 U3]].
-      destruct (pf_create (pf_unlink s (get s x)) (m_pid (get s x)) PMain) as [s2|] eqn:Cr.
+      destruct (pf_create (pf_unlink s (get s x)) (m_pid (get s x)) tgt) as [s2|] eqn:Cr.
       * destruct (pf_create_masters _ _ _ _ Cr) as [EA [EB EN]].
-        apply (wf_ext (put s x (set_m_pf (set_m_workers (get s x) (cworkers c)) PMain (pf_create_owns (pf_unlink s (get s x)) (m_pid (get s x)) PMain)))); auto;
+        apply (wf_ext (put s x (set_m_pf (set_m_workers (get s x) (cworkers c)) tgt (pf_create_owns (pf_unlink s (get s x)) (m_pid (get s x)) tgt)))); auto;
           destruct x; simpl in *; congruence.
       * unfold crash. apply do_exit_wf.
-        apply (wf_ext (put s x (set_m_pf (set_m_workers (get s x) (cworkers c)) PMain false))); auto; destruct x; simpl in *; congruence.
+        apply (wf_ext (put s x (set_m_pf (set_m_workers (get s x) (cworkers c)) tgt false))); auto; destruct x; simpl in *; congruence.
     + apply wf_put_same; auto. unfold same_links. simpl. auto.
   - (* WINCH *)
     destruct (m_alive (get s x) && daemon c); auto.
@@ -273,13 +275,14 @@ Proof.
         -- intros Hu Hal. rewrite put_sock. rewrite pf_unlink_sock. apply S; auto. destruct x; simpl in Al; auto.
     + intros Hu Hal. rewrite put_sock. apply S; auto. destruct x; simpl in *; auto.
   - destruct (negb (m_alive (get s x))) eqn:Al; auto. apply negb_false_iff in Al.
+    cbv zeta. remember (if reload_names_dot2 && negb (m_mpid (get s x) =? 0) then PDot2 else PMain) as tgt.
     destruct (pidconf c).
     + destruct (pf_unlink_masters s (get s x)) as [U1 [U2 U3]].
-      destruct (pf_create (pf_unlink s (get s x)) (m_pid (get s x)) PMain) as [s2|] eqn:Cr.
+      destruct (pf_create (pf_unlink s (get s x)) (m_pid (get s x)) tgt) as [s2|] eqn:Cr.
       * intros Hu Hal. rewrite put_sock. rewrite (pf_create_sock _ _ _ _ Cr). rewrite pf_unlink_sock. apply S; auto.
         destruct x; simpl in Al; auto.
       * unfold crash. apply do_exit_sock.
-        -- apply (wf_ext (put s x (set_m_pf (set_m_workers (get s x) (cworkers c)) PMain false))).
+        -- apply (wf_ext (put s x (set_m_pf (set_m_workers (get s x) (cworkers c)) tgt false))).
            ++ destruct x; simpl in *; congruence.
            ++ destruct x; simpl in *; congruence.
            ++ destruct x; simpl in *; congruence.
